@@ -1,7 +1,7 @@
 import Jrpc.Oracle.Util
 import Jrpc.Model.Push
 /-! Oracle for C09: `c09 <allowPush 0|1> <ev>…`, ev ::= `c:<id>` Callback pushed with this id | `n` Notify |
-`C` Callback refused | `N` Notify refused | `r:<id>:<payload>` reply-shaped member read | `w:<id>` watcher fired |
+`C` Callback refused | `cf:<id>` Callback registered with this id, its request lost in transmission | `N` Notify refused | `r:<id>:<payload>` reply-shaped member read | `w:<id>` watcher fired |
 `x` stop | `o:<id>` observe → per `o`: `<id>=<reply:p|ctx|none>`; and `c` checks the id is the model's next id -/
 namespace Jrpc.Oracle.C09
 open Jrpc.Oracle Jrpc.Push
@@ -17,6 +17,10 @@ def handle (toks : List String) : String :=
           let s' := step s .pushCall
           if s'.sent.head? == some (Out.call (id.toNat?.getD 0)) then go s' out (i + 1) r
           else s!"reject {i} callback-id-or-gate-differs (model next id {s.nextId}, running {s.running})"
+        | ["cf", id] =>   -- a callback registered under this id whose request was lost in transmission
+          let s' := step s .pushCallLost
+          if s'.table.head? == some (id.toNat?.getD 0) && s'.sent.length == s.sent.length then go s' out (i + 1) r
+          else s!"reject {i} lost-callback-id-or-gate-differs (model next id {s.nextId}, running {s.running})"
         | ["n"] =>
           let s' := step s .pushNotify
           if s'.sent.head? == some Out.notify && s'.sent.length == s.sent.length + 1 then go s' out (i + 1) r else s!"reject {i} notify-gate-differs"
